@@ -316,6 +316,10 @@ func (r *vsRun) newServer(gpus discover.GpuInfoList, model string, f *ggml.GGML,
 	// the property's own reading of "predicted to fit": every layer incl. the output layer is placed on the GPUs
 	// the runner is started on, computed from the memory estimate independently of llm.PredictServerFit
 	fit := 1
+	var estInfo []uint64 // for the replay reader: free memory of the GPUs passed, then the estimate (total size, layers)
+	for _, g := range gpus {
+		estInfo = append(estInfo, g.FreeMemory)
+	}
 	// the KV cache type the server is really started with (llm.NewLlamaServer): quantised only with flash attention,
 	// which needs the setting, GPUs that support it and a model that can use it
 	faReally := envconfig.FlashAttention() && gpus.FlashAttentionSupported()
@@ -333,11 +337,13 @@ func (r *vsRun) newServer(gpus discover.GpuInfoList, model string, f *ggml.GGML,
 	}
 	if f != nil && len(gpus) == 1 && gpus[0].Library == "cpu" {
 		est := llm.EstimateGPULayers(gpus, f, projectors, opts, numParallel)
+		estInfo = append(estInfo, est.TotalSize, 0)
 		if est.TotalSize > gpus[0].FreeMemory {
 			fit = 0
 		}
 	} else if f != nil && len(gpus) > 0 && gpus[0].Library != "cpu" {
 		est := llm.EstimateGPULayers(gpus, f, projectors, opts, numParallel)
+		estInfo = append(estInfo, est.TotalSize, uint64(est.Layers))
 		need := int(f.KV().BlockCount()) + 1
 		if opts.NumGPU >= 0 {
 			need = opts.NumGPU
@@ -350,7 +356,7 @@ func (r *vsRun) newServer(gpus discover.GpuInfoList, model string, f *ggml.GGML,
 	}
 	alt := vhEnvChoice("mock.newserver", 2)
 	if alt == 1 {
-		r.ev("newserver", mi, -1, opts.NumCtx, opts.NumGPU, numParallel, ids, adapters, fit, len(r.s.loaded))
+		r.ev("newserver", mi, -1, opts.NumCtx, opts.NumGPU, numParallel, ids, adapters, fit, len(r.s.loaded), estInfo)
 		return nil, errors.New("mock newServer failure")
 	}
 	m := &vsMock{r: r, id: len(r.srvs), model: mi}
@@ -361,7 +367,7 @@ func (r *vsRun) newServer(gpus discover.GpuInfoList, model string, f *ggml.GGML,
 		m.gpus = append(m.gpus, g.ID)
 	}
 	r.srvs = append(r.srvs, m)
-	r.ev("newserver", mi, m.id, opts.NumCtx, opts.NumGPU, numParallel, ids, adapters, fit, len(r.s.loaded))
+	r.ev("newserver", mi, m.id, opts.NumCtx, opts.NumGPU, numParallel, ids, adapters, fit, len(r.s.loaded), estInfo)
 	return m, nil
 }
 
@@ -1145,15 +1151,32 @@ func vsEdgeFree(path string, g vsGpu, par int, m vsModel) uint64 {
 		a, b = first(blocks+1, 1), first(blocks+1, edgePar)
 	}
 	if m.EdgeCPU && edgePar > 1 {
-		total := func(p int) uint64 {
+		// least free system memory for which the CPU fit check (TotalSize <= free, num_gpu = 0) holds with p slots
+		fits := func(free uint64, p int) bool {
 			opts := api.DefaultOptions()
 			opts.NumCtx = 2048 * p
+			opts.NumGPU = 0
 			x := discover.GpuInfo{Library: g.Lib, ID: g.ID}
 			x.TotalMemory = g.Total
-			x.FreeMemory = g.Free
-			return llm.EstimateGPULayers([]discover.GpuInfo{x}, f, nil, opts, p).TotalSize
+			x.FreeMemory = free
+			return llm.EstimateGPULayers([]discover.GpuInfo{x}, f, nil, opts, p).TotalSize <= free
 		}
-		a, b = total(1), total(edgePar)
+		least := func(p int) uint64 {
+			lo, hi := uint64(0), g.Total
+			if !fits(hi, p) {
+				return 0
+			}
+			for lo < hi {
+				mid := lo + (hi-lo)/2
+				if fits(mid, p) {
+					hi = mid
+				} else {
+					lo = mid + 1
+				}
+			}
+			return lo
+		}
+		a, b = least(1), least(edgePar)
 	}
 	if m.EdgeKV != "" {
 		// least memory for a complete fit with the f16 cache, minus half of what the quantised cache would save
@@ -1166,7 +1189,10 @@ func vsEdgeFree(path string, g vsGpu, par int, m vsModel) uint64 {
 				d += kv16[i] - kvq[i]
 			}
 		}
+		fa := os.Getenv("OLLAMA_FLASH_ATTENTION")
+		os.Setenv("OLLAMA_FLASH_ATTENTION", "0")
 		full := first(blocks+1, par)
+		os.Setenv("OLLAMA_FLASH_ATTENTION", fa)
 		if full == 0 || d < 4 || full <= d {
 			return 0
 		}
